@@ -280,7 +280,7 @@ func (s *supervisor) spawn(jobs []idxJob, threads int) (int, *partial, death) {
 	ctx, cancel := context.WithTimeout(context.Background(), limit)
 	defer cancel()
 	cmd := exec.CommandContext(ctx, s.self, "--extra", "child")
-	cmd.Env = append(os.Environ(), scratchEnv+"="+scratch, fmt.Sprintf("GOMAXPROCS=%d", threads), "GOTRACEBACK=all")
+	cmd.Env = append(os.Environ(), scratchEnv+"="+scratch, fmt.Sprintf("GOMAXPROCS=%d", threads))
 	var js []Job
 	for _, j := range jobs {
 		js = append(js, j.job)
